@@ -508,6 +508,22 @@ func guardsOf(b *ssa.BasicBlock) []edgeGuard {
 type atom struct {
 	V   ssa.Value
 	Pol bool
+	// Bind: when the atom was read out of a one-line predicate helper (`isRoot(c)` for `c.Pos() == 0`), the helper's
+	// parameters and the arguments the guarded call passed for them; resolve() maps a value of the helper back to
+	// the caller's frame.
+	Bind *map[ssa.Value]ssa.Value
+}
+
+// resolve reads v, a value that occurs in the atom, in the frame of the function the atom guards.
+func (a atom) resolve(v ssa.Value) ssa.Value {
+	for i := 0; i < 3 && a.Bind != nil; i++ {
+		w, ok := (*a.Bind)[v]
+		if !ok {
+			break
+		}
+		v = w
+	}
+	return v
 }
 
 // guardAtoms expands the guards of b through boolean negation: a guard
@@ -545,7 +561,7 @@ func (ex *atomExpander) add(v ssa.Value, pol bool) {
 		return
 	}
 	ex.seen[v] = true
-	ex.out = append(ex.out, atom{v, pol})
+	ex.out = append(ex.out, atom{V: v, Pol: pol})
 	// a boolean handed back by a helper of the repository: what is known on every path of the helper that returns
 	// this value (`if n, ok := x.pending(); ok` - the caller's else-branch knows what made pending say no)
 	if ex.depth < 2 {
@@ -581,6 +597,44 @@ func (ex *atomExpander) add(v ssa.Value, pol bool) {
 							sets = append(sets, sub.out)
 						}
 					})
+					if open {
+						// a one-line predicate: the helper's only return hands back an expression over its
+						// parameters - the caller knows that expression, read with the arguments it passed
+						var only *ssa.Return
+						nRet := 0
+						allInstrs(g, func(in ssa.Instruction) {
+							if ret, ok := in.(*ssa.Return); ok {
+								nRet++
+								only = ret
+							}
+						})
+						if nRet == 1 && len(g.Blocks) <= 4 && idx < len(only.Results) && len(call.Call.Args) == len(g.Params) {
+							sub := &atomExpander{seen: map[ssa.Value]bool{}, depth: ex.depth + 1}
+							sub.add(only.Results[idx], pol)
+							bind := map[ssa.Value]ssa.Value{}
+							for i, p := range g.Params {
+								bind[p] = call.Call.Args[i]
+							}
+							for _, a := range sub.out {
+								if ex.seen[a.V] {
+									continue
+								}
+								ex.seen[a.V] = true
+								nb := bind
+								if a.Bind != nil {
+									nb = map[ssa.Value]ssa.Value{}
+									for k, v := range *a.Bind {
+										nb[k] = v
+									}
+									for k, v := range bind {
+										nb[k] = v
+									}
+								}
+								nbp := nb
+								ex.out = append(ex.out, atom{V: a.V, Pol: a.Pol, Bind: &nbp})
+							}
+						}
+					}
 					if !open && len(sets) > 0 {
 						// what all those paths agree on
 						for _, a := range sets[0] {
@@ -1001,6 +1055,13 @@ func (s succRet) contains(v ssa.Value, pred func(ssa.Value) bool) bool {
 }
 
 func successReturns(fn *ssa.Function, pkgKey string) []succRet {
+	return successReturnsBound(fn, pkgKey, nil)
+}
+
+// successReturnsBound: as successReturns, for a closure built by a factory: bind holds what its free variables were
+// given (`func(ctx, args) { return fn(args[0]), nil }` with fn bound to a literal: the success value is what the bound
+// function returns, read with its parameter standing for the argument).
+func successReturnsBound(fn *ssa.Function, pkgKey string, bind map[*ssa.FreeVar]ssa.Value) []succRet {
 	var out []succRet
 	var visit func(g *ssa.Function, subst map[*ssa.Parameter]ssa.Value, depth int)
 	visit = func(g *ssa.Function, subst map[*ssa.Parameter]ssa.Value, depth int) {
@@ -1019,7 +1080,23 @@ func successReturns(fn *ssa.Function, pkgKey string) []succRet {
 							all = false
 						}
 					}
-					if h := staticCallee(c); all && h != nil && fnPkgKey(h) == pkgKey && len(h.Blocks) > 0 && h != g {
+					h := staticCallee(c)
+					if h == nil && bind != nil {
+						// the tail call goes to a function held in a free variable that the factory bound
+						cv := c.Call.Value
+						if ld, isLd := cv.(*ssa.UnOp); isLd && ld.Op == token.MUL {
+							cv = ld.X
+						}
+						if fv, isFV := cv.(*ssa.FreeVar); isFV {
+							switch b := stripConv(bind[fv]).(type) {
+							case *ssa.Function:
+								h = b
+							case *ssa.MakeClosure:
+								h, _ = b.Fn.(*ssa.Function)
+							}
+						}
+					}
+					if all && h != nil && fnPkgKey(h) == pkgKey && len(h.Blocks) > 0 && h != g {
 						s2 := map[*ssa.Parameter]ssa.Value{}
 						for k, v := range subst {
 							s2[k] = v
@@ -1036,6 +1113,36 @@ func successReturns(fn *ssa.Function, pkgKey string) []succRet {
 			}
 			if len(ret.Results) >= 2 && !isNilConst(ret.Results[len(ret.Results)-1]) {
 				return
+			}
+			// the value is handed back by a function held in a free variable that the factory bound
+			if c, ok := ret.Results[0].(*ssa.Call); ok && bind != nil && depth < 4 {
+				fv, isFV := c.Call.Value.(*ssa.FreeVar)
+				if ld, isLd := c.Call.Value.(*ssa.UnOp); isLd && ld.Op == token.MUL {
+					// captured by reference: the call goes through a load of the cell
+					fv, isFV = ld.X.(*ssa.FreeVar)
+				}
+				if isFV {
+					var h *ssa.Function
+					switch b := stripConv(bind[fv]).(type) {
+					case *ssa.Function:
+						h = b
+					case *ssa.MakeClosure:
+						h, _ = b.Fn.(*ssa.Function)
+					}
+					if h != nil && len(h.Blocks) > 0 && h.Signature.Results().Len() == 1 && h != g {
+						s2 := map[*ssa.Parameter]ssa.Value{}
+						for k, v := range subst {
+							s2[k] = v
+						}
+						for i, a := range c.Call.Args {
+							if i < len(h.Params) {
+								s2[h.Params[i]] = a
+							}
+						}
+						visit(h, s2, depth+1)
+						return
+					}
+				}
 			}
 			out = append(out, succRet{Ret: ret, Val: ret.Results[0], Fn: g, Subst: subst})
 		})
